@@ -5,6 +5,8 @@ from ..schedx import World, explore, Oracle
 from ..world import table_from_perms, all_perms, rotate
 from ..refs.syncsh import SyncRef, geometric
 
+from ..scheds import shared as scheds_shared
+
 LEVEL = "model_checking"
 PROP = "C05"
 
@@ -39,7 +41,7 @@ def make_scheduler(cfg):
     max_level = br[0][-1][1]
     space = {"a": uniform(0, 1)}
     kw = dict(metric="m", mode=cfg["mode"], resource_attr="epoch", searcher="random", random_seed=cfg["seed"],
-              search_options={"debug_log": False})
+              search_options=scheds_shared("so", {"debug_log": False}))
     if cfg.get("use_mra", True):
         space["epochs"] = max_level
         kw["max_resource_attr"] = "epochs"
